@@ -702,20 +702,31 @@ def run(ctx: Ctx, rs: RuleSet, tier: str):
            ctx.loc(sm, sm.node), nontrivial=False)
   cf = ctx.func(f'{AC}.ir_to_cst.code_for_fn')
   ok = False
+  lines_var, comp_ok = None, False
   for n in walk_function(cf.node):
     if isinstance(n, ast.Call) and unparse(n.func) == 'cst.IndentedBlock':
       body = kwarg(n, 'body')
       if isinstance(body, ast.List) and len(body.elts) == 2 and isinstance(
-          body.elts[0], ast.Starred) and isinstance(
-              body.elts[0].value, ast.Name) and 'cst.Return(' in unparse(
-                  body.elts[1]):
-        ok = True
-        lines_var = body.elts[0].value.id
-  loop_ok = ok and any(
-      isinstance(n, ast.For) and unparse(n.iter) == f'{cf.params[0]}.variables'
-      and any(isinstance(c, ast.Call) and unparse(c.func) == (
-          f'{lines_var}.append') for st in n.body for c in ast.walk(st))
-      for n in walk_function(cf.node))
+          body.elts[0], ast.Starred) and 'cst.Return(' in unparse(
+              body.elts[1]):
+        lines = roles.deref(cf, body.elts[0].value)
+        if isinstance(lines, ast.ListComp):
+          # one line per declaration, in order, none filtered out
+          ok = True
+          lines_var = None
+          comp_ok = len(lines.generators) == 1 and unparse(
+              lines.generators[0].iter) == f'{cf.params[0]}.variables' and (
+                  not lines.generators[0].ifs)
+        elif isinstance(body.elts[0].value, ast.Name):
+          ok = True
+          lines_var = body.elts[0].value.id
+  loop_ok = ok and ((lines_var is None and comp_ok) or (
+      lines_var is not None and any(
+          isinstance(n, ast.For) and
+          unparse(n.iter) == f'{cf.params[0]}.variables'
+          and any(isinstance(c, ast.Call) and unparse(c.func) == (
+              f'{lines_var}.append') for st in n.body for c in ast.walk(st))
+          for n in walk_function(cf.node))))
   rs.check(ok and loop_ok, rule, f'{cf.qualname}:body',
            'body = [*variable declarations in fn.variables order, return '
            '<output>]', ctx.loc(cf, cf.node))
